@@ -59,8 +59,8 @@ RULE = ('operation histories on one protocol instance x {tcp/dict, serial/fifo}:
         'with up to 12 (quick) / 300 (thorough) outstanding, connection loss inserted at every point of base histories, '
         'a wrap-around history of 65540 requests; non-trivial = at least one deferred fired; distinct by canonical JSON')
 
-KF_WRAP = 'tid-wrap-overwrite'
-WRAP_CLAUSES = ('distinct', 'delivered', 'lost_fails', 'complete')
+# clauses that need a free transaction id (side condition of Props.C16.C16_dict: fewer than 65536 outstanding)
+ROOM_CLAUSES = ('distinct', 'delivered', 'lost_fails', 'complete')
 
 
 # ------------------------------------------------------------------ real code driver
@@ -286,8 +286,9 @@ def run_real(case):
 
 # ------------------------------------------------------------------ the property, checked directly on a trace
 def check_trace(variant, ops, segs, table_ids, stats):
-    """Direct predicates on the observed history.  Returns (problems, wrapped): problems = list of (clause, text);
-    wrapped = some outstanding request saw >= 65536 further executes (outside the scope of `distinct_ids_partial`)."""
+    """Direct predicates on the observed history.  Returns (problems, noroom): problems = list of (clause, text);
+    noroom = at some point 65536 or more requests were outstanding (no free 16-bit id: outside the side condition
+    `Spec.RoomAll` of Props.C16.C16_dict; never generated)."""
     problems = []
 
     def bad(clause, text):
@@ -300,14 +301,14 @@ def check_trace(variant, ops, segs, table_ids, stats):
     by_tid = {}                 # tid -> set of outstanding ids
     dup_tids = 0
     conn = False
-    wrapped = False
+    noroom = False
     last_served = -1
     stats['histories'] = stats.get('histories', 0) + 1
     for idx, (op, es) in enumerate(zip(ops, segs)):
         if len(outstanding) > stats.get('max_outstanding', 0):
             stats['max_outstanding'] = len(outstanding)
-        if outstanding and len(sent) - next(iter(outstanding)) >= 65536:
-            wrapped = True
+        if len(outstanding) >= 65536:
+            noroom = True
         if dup_tids:
             bad('distinct', 'two outstanding requests carry the same transaction id before op %d' % idx)
         kind = op[0]
@@ -398,8 +399,6 @@ def check_trace(variant, ops, segs, table_ids, stats):
             conn = True
         elif kind in ('lost', 'close'):
             conn = False            # after a local close() the client counts as disconnected
-    if outstanding and len(sent) - next(iter(outstanding)) > 65536:
-        wrapped = True
     if sorted(outstanding) != sorted(table_ids):
         lostd = sorted(set(outstanding) - set(table_ids))
         stale = sorted(set(table_ids) - set(outstanding))
@@ -409,7 +408,7 @@ def check_trace(variant, ops, segs, table_ids, stats):
             bad('complete', 'the transaction table still holds the deferreds of requests %r, which have fired' % (stale[:5],))
         if not lostd and not stale:
             bad('complete', 'the transaction table holds a deferred twice: %r' % (sorted(table_ids)[:8],))
-    return problems, wrapped
+    return problems, noroom
 
 
 SPEC_KEYS = {'dict': ['at_most_once', 'sent_once', 'tid_match', 'arrived', 'unsolicited', 'fails_when_down', 'no_exc',
@@ -432,6 +431,25 @@ def expand(case):
             ops.append(['exec', None])
             if i < n - 1 or not case.get('leave_last'):
                 ops.append(['reply', (i + 2) & 0xFFFF, i & 0xFFFF])
+        ops += [list(o) for o in case.get('tail', [])]
+        if case['variant'] == 'fifo':
+            ops = [[o[0], case.get('unit', 1), o[2]] if o[0] == 'reply' else o for o in ops]
+        return dict(kind='hist', variant=case['variant'], unit=case.get('unit', 1), ops=ops, join=[])
+    if case.get('kind') == 'wrap-hold':
+        # n requests, all answered at once except those whose index is in `hold`, which stay pending across the 16-bit
+        # wrap (n > 65536): the ids of the held requests must be skipped when the counter comes round.  The reply tids
+        # are AIMED with a generator-side count of the ids that should be free (a mis-aimed reply is just unsolicited).
+        n, hold = case.get('n', 65600), set(case.get('hold', [0]))
+        ops, tid, held = [['made']], 0, set()
+        for i in range(n):
+            tid = (tid + 1) & 0xFFFF
+            while tid in held:
+                tid = (tid + 1) & 0xFFFF
+            ops.append(['exec', {'err': {}} if i in hold else None])
+            if i in hold:
+                held.add(tid)
+            else:
+                ops.append(['reply', tid, i & 0xFFFF])
         ops += [list(o) for o in case.get('tail', [])]
         if case['variant'] == 'fifo':
             ops = [[o[0], case.get('unit', 1), o[2]] if o[0] == 'reply' else o for o in ops]
@@ -477,21 +495,23 @@ def check_cases(ctx, rep, cases, spec_limit=160):
         ok = rep.compare(case, {'segs': segs, 'state': st}, {'segs': ans['segs'], 'state': model_state(variant, ans)},
                          'event trace / final table vs Model.AsyncClient')
         table_ids = [p[1] if isinstance(p, list) else p for p in st['pending']]   # whichever manager the object really has
-        problems, wrapped = check_trace(variant, c['ops'], segs, table_ids, rep.extra.setdefault('c16_stats', {}))
+        problems, noroom = check_trace(variant, c['ops'], segs, table_ids, rep.extra.setdefault('c16_stats', {}))
         for clause, text in problems:
-            kf = KF_WRAP if (wrapped and clause in WRAP_CLAUSES) else None
-            rep.violation('C16 clause `%s` fails on the real client: %s' % (clause, text), case, finding=kf, clause=clause)
+            if noroom and clause in ROOM_CLAUSES:
+                continue
+            rep.violation('C16 clause `%s` fails on the real client: %s' % (clause, text), case, clause=clause)
         if 'spec_impl' in ans:
             sv = ans['spec_impl']
             failed = [k for k in SPEC_KEYS[variant] if not sv[k]]
             pyfailed = set(cl for cl, _ in problems)
             for k in failed:
                 if k not in pyfailed:
-                    kf = KF_WRAP if (not sv['no_wrap'] and k in WRAP_CLAUSES) else None
+                    if not sv['room'] and k in ROOM_CLAUSES:
+                        continue
                     rep.violation('Spec.AsyncClientSpec clause `%s` is false on the real client\'s history' % k, case,
-                                  finding=kf, clause=k)
+                                  clause=k)
             if ok and 'spec_model' in ans:
-                mfailed = [k for k in SPEC_KEYS[variant] if not ans['spec_model'][k] and k not in WRAP_CLAUSES]
+                mfailed = [k for k in SPEC_KEYS[variant] if not ans['spec_model'][k] and (ans['spec_model']['room'] or k not in ROOM_CLAUSES)]
                 if mfailed:
                     rep.disagree(case, 'spec holds', mfailed, 'Spec verdict on the model trace contradicts the theorems')
 
@@ -1034,7 +1054,7 @@ def run(ctx):
                 batch.append(net_interleaved(rng, variant, cls, rng.choice([2, 2, 3])))
                 batch.append(net_random(rng, variant, cls, rng.choice([15, 30, 60])))
         check_net_cases(ctx, rep, batch)
-    # the 16-bit wrap (known finding): always from the corpus; thorough adds the serial variant and variations
+    # the 16-bit wrap (fixed finding tid-wrap-overwrite): always from the corpus; thorough adds the serial variant and variations
     wraps = [c for c in corpus if c.get('kind') == 'wrap'] or list(WRAP_CASES)
     if not ctx.quick:
         wraps.append(dict(kind='wrap', variant='fifo', n=65536, leave_last=True, first=None,
@@ -1043,6 +1063,13 @@ def run(ctx):
     for n in (300, 1000) if ctx.quick else (300, 1000, 5000, 40000, 65535):
         wraps.append(dict(kind='wrap', variant='dict', n=n, leave_last=True, first={'err': {}}, tag='long-lived',
                           tail=[['reply', 1, 9], ['reply', 1, 10], ['lost']]))
+    # several requests held pending across the wrap: their ids are skipped when the counter comes round
+    wraps.append(dict(kind='wrap-hold', variant='dict', n=65560, hold=[0, 3, 4, 70],
+                      tail=[['reply', 5, 9], ['reply', 1, 8], ['reply', 1, 8], ['exec', None], ['lost'], ['exec', None]]))
+    if not ctx.quick:
+        wraps.append(dict(kind='wrap-hold', variant='dict', n=131200, hold=[1, 2, 65000, 65540],
+                          tail=[['reply', 2, 9], ['exec', None], ['close', 1], ['lost']]))
+        wraps.append(dict(kind='wrap-hold', variant='fifo', n=65560, hold=[0, 3], tail=[['reply', 1, 8], ['lost']]))
     # pipelining across the wrap (no request is long-lived)
     wraps.append(dict(kind='wrap-pipeline', variant='dict', n=65533, k=5, tail=[['exec', None], ['lost']]))
     if not ctx.quick:
@@ -1061,15 +1088,12 @@ def replay(ctx, payload):
     else:
         cs = [payload['case']]
     for c in cs:
-        if c.get('kind') not in ('hist', 'wrap', 'wrap-pipeline', 'net'):
+        if c.get('kind') not in ('hist', 'wrap', 'wrap-hold', 'wrap-pipeline', 'net'):
             return 'unknown case kind %r' % c.get('kind')
     check_cases(ctx, rep, [c for c in cs if c.get('kind') != 'net'])
     check_net_cases(ctx, rep, [c for c in cs if c.get('kind') == 'net'])
-    bad = [v for v in rep.violations if v.get('finding') != KF_WRAP]
-    if bad:
-        return bad[0]['what']
+    if rep.violations:
+        return rep.violations[0]['what']
     if rep.disagreements:
         return 'model/implementation disagreement at ' + rep.disagreements[0]['where']
-    if rep.violations:
-        return rep.violations[0]['what'] + ' (known finding %s)' % rep.violations[0]['finding']
     return None
